@@ -33,7 +33,7 @@ func init() {
 
 	lifeRule := "one run = one seeded execution of a real server (listener, accept path, 1-2 pollers) with one accepted connection: configuration (which callbacks, how many close callbacks, OnConnect behaviour, per-invocation handler script consume/gate/echo/close/panic and, for C06, a blocking read whose deadline has already passed), a raw peer that writes a chunked stream with pauses and then stays/closes/half-closes/resets, 0-3 user closers (one may Detach), optional Shutdown; non-trivial = a connection was accepted and the peer wrote, closed or a user closer acted; distinct = distinct hash of the step trace"
 	lifeAssume := []string{"the handler consumes at least one byte per invocation or closes the connection (documented OnRequest contract)", "one reader (the handler) per connection", "AF_UNIX stream sockets on the real kernel", "yields at atomics, syscalls, channel/mutex operations, spawns"}
-	addPlan(&propertyPlan{ID: "C05", Scenarios: []scenarioPlan{{Name: "c05_teardown", Quick: 40000, Thorough: 2500000}, {Name: "c06_handler", Quick: 5000, Thorough: 250000}, {Name: "c09_callbacks", Quick: 5000, Thorough: 250000}, {Name: "c05_prepare", Quick: 8000, Thorough: 300000}}, Rule: lifeRule + "; c05_prepare: a server whose OnPrepare registers 1-3 close callbacks and then closes the connection itself, or whose registration with the poller fails (epoll_ctl ADD error), or neither, for 1-4 clients one after the other: every close callback exactly once, the descriptor closed, IsActive false, Shutdown returns", Assume: lifeAssume, Real: commonReal, Stub: commonStub})
+	addPlan(&propertyPlan{ID: "C05", Scenarios: []scenarioPlan{{Name: "c05_teardown", Quick: 40000, Thorough: 2500000}, {Name: "c06_handler", Quick: 5000, Thorough: 250000}, {Name: "c09_callbacks", Quick: 5000, Thorough: 250000}, {Name: "c05_prepare", Quick: 8000, Thorough: 300000}}, Rule: lifeRule + "; c05_prepare: a server whose OnPrepare registers 1-3 close callbacks and then closes the connection itself, or whose registration with the poller fails (epoll_ctl ADD error), or that lets it through (and, one case in four, the user detaches it once accepted: the registration must be gone, the descriptor open, its peer keeps writing or hangs up), for 1-4 clients one after the other on recycled poller slots: every close callback exactly once, the descriptor closed, IsActive false, connections that were let through undisturbed, Shutdown returns", Assume: lifeAssume, Real: commonReal, Stub: commonStub})
 	addPlan(&propertyPlan{ID: "C06", Scenarios: []scenarioPlan{{Name: "c06_handler", Quick: 40000, Thorough: 2500000}, {Name: "c05_teardown", Quick: 5000, Thorough: 250000}, {Name: "c09_callbacks", Quick: 5000, Thorough: 250000}, {Name: "c06_late", Quick: 10000, Thorough: 500000}}, Rule: lifeRule + "; c06_late: a client connection (FD or dialled) without request handler whose peer sends 1-3 chunks and stays or closes, SetOnRequest called at a seeded moment (at once, after a pause, once all input is buffered, once the peer has hung up), a handler that takes 1, 4 or all bytes per call: every byte offered, serially, before the close callbacks run", Assume: lifeAssume, Real: commonReal, Stub: commonStub})
 	addPlan(&propertyPlan{ID: "C09", Scenarios: []scenarioPlan{{Name: "c09_callbacks", Quick: 40000, Thorough: 2500000}, {Name: "c05_teardown", Quick: 5000, Thorough: 250000}, {Name: "c06_handler", Quick: 5000, Thorough: 250000}}, Rule: lifeRule, Assume: lifeAssume, Real: commonReal, Stub: commonStub})
 
@@ -55,7 +55,7 @@ func init() {
 		Real:   commonReal, Stub: commonStub})
 
 	addPlan(&propertyPlan{ID: "C15",
-		Scenarios: []scenarioPlan{{Name: "c15_errors", Quick: 15000, Thorough: 600000}, {Name: "c13_server", Quick: 6000, Thorough: 250000}, {Name: "c05_teardown", Quick: 6000, Thorough: 250000}, {Name: "c08_flush", Quick: 3000, Thorough: 100000}, {Name: "c07_reader", Quick: 3000, Thorough: 100000}, {Name: "c14_dial", Quick: 6000, Thorough: 250000}, {Name: "c18_pool", Quick: 3000, Thorough: 100000}},
+		Scenarios: []scenarioPlan{{Name: "c15_errors", Quick: 15000, Thorough: 600000}, {Name: "c13_server", Quick: 6000, Thorough: 250000}, {Name: "c05_teardown", Quick: 6000, Thorough: 250000}, {Name: "c08_flush", Quick: 3000, Thorough: 100000}, {Name: "c07_reader", Quick: 3000, Thorough: 100000}, {Name: "c05_prepare", Quick: 5000, Thorough: 200000}, {Name: "c14_dial", Quick: 6000, Thorough: 250000}, {Name: "c18_pool", Quick: 3000, Thorough: 100000}},
 		Rule: "descriptor ledger armed in every scenario: a descriptor becomes netpoll-owned when a netpoll system call creates it or when it is handed over (NewFDConnection, the listener duplicate) and returns to the harness at Detach; a close of a number that is not open or not owned, a harness-owned trip-wire (opened on the number netpoll just closed) found closed or replaced, or a netpoll-owned descriptor still open after every connection, listener and poller was closed is a violation; the dedicated scenario c15_errors strings together 1-5 error-path life cycles (refused dial, socket option failing after socket(), registration failing, poller creation failing half way, connections closed by either side, dialled and accepted connections); non-trivial = a connection or poller was created; distinct = distinct step-trace hash",
 		Assume: []string{"descriptors opened by the standard library on netpoll's behalf (the os.File of a converted net.Listener) are covered by the trip-wire and by an fstat census, not by the call ledger", "AF_UNIX sockets only"},
 		Real:   commonReal, Stub: commonStub})
@@ -67,7 +67,7 @@ func init() {
 
 	addPlan(&propertyPlan{ID: "C14",
 		Scenarios: []scenarioPlan{{Name: "c14_dial", Quick: 20000, Thorough: 1000000}, {Name: "c15_errors", Quick: 4000, Thorough: 100000}},
-		Rule: "one run = 1-3 targets (TCP v4/v6 literal over the virtual TCP stub: accept after a virtual delay of 0..100ms, refuse, drop, accept-then-reset; unix: listening or absent) and 1-6 concurrent DialConnection calls with timeout 0/1/5/50ms; the connect completing and the timeout firing are both scheduler events; a returned connection must complete an echo round trip; after every dial has returned and every returned connection was closed no socket descriptor opened by a dial and no poller slot may be left; non-trivial = every run; distinct = distinct step-trace hash",
+		Rule: "one run = 1-3 targets (TCP v4/v6 literal over the virtual TCP stub: accept after a virtual delay of 0..100ms, refuse, drop, accept-then-reset; unix: listening, absent, or listening with a full accept queue and nobody accepting) and 1-6 concurrent DialConnection calls with timeout 0/1/5/50ms; the connect completing and the timeout firing are both scheduler events; a returned connection must complete an echo round trip; after every dial has returned and every returned connection was closed no socket descriptor opened by a dial and no poller slot may be left; non-trivial = every run; distinct = distinct step-trace hash",
 		Assume: []string{"the TCP handshake is a stub (vsys virtual TCP over AF_UNIX: EINPROGRESS, completion/refusal/silence after a virtual delay, SO_ERROR, deferred epoll registration); everything after the connect is the real kernel", "IP literals only (no DNS)", "an untimed dial into a black hole is not generated"},
 		Real:   commonReal, Stub: append(append([]string{}, commonStub...), "TCP three-way handshake (vsys virtual TCP)")})
 
@@ -79,18 +79,18 @@ func init() {
 
 	addPlan(&propertyPlan{ID: "C12",
 		Scenarios: []scenarioPlan{{Name: "c12_closed", Quick: 40000, Thorough: 1500000}},
-		Rule: "the product {36 Connection/Reader/Writer methods} x {closed by user, by peer, by peer then user, detached} x {5 bytes of input buffered or none} x {unflushed output pending or none} x {accepted connection with OnConnect and a close callback, or a bare FD connection} x {called once or twice} x {a new connection has reused the poller slot or not} = 4608 cases is sampled by the workload tape, each case reached inside the simulator under seeded schedules and the method then called from a fresh task; non-trivial = every case; distinct = distinct step-trace hash; distinct_abstract_states counts distinct cases of the product",
+		Rule: "the product {36 Connection/Reader/Writer methods} x {closed by user, by peer, by peer then user, detached} x {5 bytes of input buffered or none} x {unflushed output pending or none} x {accepted connection with OnConnect and a close callback, or a bare FD connection} x {called once or twice} x {a new connection has reused the poller slot or not} x {read and write timeouts configured or not} = 9216 cases is sampled by the workload tape, each case reached inside the simulator under seeded schedules and the method then called from a fresh task; non-trivial = every case; distinct = distinct step-trace hash; distinct_abstract_states counts distinct cases of the product",
 		Assume: []string{"zero-copy results obtained before the close are not used afterwards", "buffered input of a peer-closed connection stays readable only while the user has not closed it and it has no OnConnect/OnRequest (netpoll then tears it down itself)"},
 		Real:   commonReal, Stub: commonStub})
 
 	addPlan(&propertyPlan{ID: "C10",
-		Scenarios: []scenarioPlan{{Name: "c10_isolation", Quick: 20000, Thorough: 1000000}, {Name: "c10_batch", Quick: 40000, Thorough: 2000000}, {Name: "c12_closed", Quick: 10000, Thorough: 300000}},
+		Scenarios: []scenarioPlan{{Name: "c10_isolation", Quick: 20000, Thorough: 1000000}, {Name: "c10_batch", Quick: 40000, Thorough: 2000000}, {Name: "c05_prepare", Quick: 6000, Thorough: 200000}, {Name: "c12_closed", Quick: 10000, Thorough: 300000}},
 		Rule: "one run = 2-4 generations of connections over one poller and a small descriptor pool: each generation opens a socket pair (lowest free descriptor numbers and the freed poller slot are reused), its peer sends a private position-keyed stream, a reader consumes it, and it is closed by the user, by the peer, by both, or left open; the next generation is opened either at rest or while the poller is busy with the previous one; a stale caller keeps invoking Release/Close/Next/Write/Flush/Len/Skip on connections that are already closed, at seeded steps, including between the fetch and the dispatch of a poller batch; after every generation the slot ownership is audited in-package; c10_batch: one poller, 1-3 bystander connections and connection A get input at the same instant (A's peer may close too), A is closed by its user (optionally as soon as epoll_wait has handed out an event for A) and a new connection B is opened (optionally as soon as A's slot is back on the poller's free chain): the bystanders and B must stay active and receive exactly their own bytes; non-trivial = every run; distinct = distinct step-trace hash",
 		Assume: []string{"one reader per connection; stale calls come from one extra goroutine", "a peer-closed connection without callbacks is closed by the user (documented)"},
 		Real:   commonReal, Stub: commonStub})
 	addPlan(&propertyPlan{ID: "C11",
 		Scenarios: []scenarioPlan{{Name: "c11_poller", Quick: 15000, Thorough: 700000}, {Name: "c11_trigger", Quick: 20000, Thorough: 1000000}, {Name: "c18_pool", Quick: 3000, Thorough: 100000}},
-		Rule: "one run = the real defaultPoll loop with 1-140 harness-owned FDOperators over socket pairs (140 makes the batch cross the 128-event growth threshold); up to 8 peers write 0-3000 bytes in seeded chunkings and then stay, close, half-close or close with unread data; a third of the descriptors also have output to send through the poller; 0-2 further descriptors are registered the way a connecting socket is (writability only, edge-triggered: events carry OUT, RDHUP, HUP but never IN) with a peer that stays or goes away; optional Detach(+Free), Trigger and finally Close from other tasks; kernel short reads/writes, EAGAIN, epoll EINTR and batch clipping; the flag combinations are those the real kernel produces for AF_UNIX; c11_trigger: 1-4 tasks call Trigger 1-3 times each at seeded instants (also while the loop handles an earlier wake-up or socket input), then, with the loop blocked, two further Triggers must each be written to the wake-up descriptor and consumed by the loop; non-trivial = every run; distinct = distinct step-trace hash",
+		Rule: "one run = the real defaultPoll loop with 1-140 harness-owned FDOperators over socket pairs (140 makes the batch cross the 128-event growth threshold); up to 8 peers write 0-3000 bytes in seeded chunkings and then stay, close, half-close or close with unread data; a third of the descriptors also have output to send through the poller; 0-2 further descriptors are registered the way a connecting socket is (writability only, edge-triggered: events carry OUT, RDHUP, HUP but never IN) with a peer that stays or goes away; optional Detach(+Free), Trigger and finally Close from other tasks; kernel short reads/writes, EAGAIN, epoll EINTR and batch clipping; the flag combinations are those the real kernel produces for AF_UNIX, and in half of the runs the error queue answers EAGAIN as a TCP socket's does; c11_trigger: 1-4 tasks call Trigger 1-3 times each at seeded instants (also while the loop handles an earlier wake-up or socket input), then, with the loop blocked, two further Triggers must each be written to the wake-up descriptor and consumed by the loop; non-trivial = every run; distinct = distinct step-trace hash",
 		Assume: []string{"detaching a descriptor means deregistering it and handing its slot back (what connection does); TCP-only flag combinations are not produced", "poll_default_bsd.go cannot be built on this platform and is outside the check"},
 		Real:   commonReal, Stub: commonStub})
 
